@@ -20,7 +20,7 @@ for i in ids:
         res[i] = {"property": prop, "status": "patch does not apply", "rules": []}
         sh("git", "-C", "/repo", "checkout", "HEAD", "--", ".")
         continue
-    r = sh("/verif/bin/scverif", "check", prop, "--tier", "quick")
+    r = sh("/verif/bin/scverif", "check", prop, "--tier", "quick", env=dict(os.environ, SCVERIF_EVIDENCE_DIR="/tmp/scverif-seeded-evidence"))
     sh("git", "-C", "/repo", "checkout", "HEAD", "--", ".")
     rules = sorted(set(re.findall(r"^VIOLATION (R[0-9.]+)\|", r.stdout, re.M)))
     undec = sorted(set(re.findall(r"^UNDECIDED (R[0-9.]+)\|", r.stdout, re.M)))
